@@ -165,6 +165,51 @@ def r2_purity(ctx, F):
                   "a condition is treated as constant only on the Some edge of is_pure_infallible_to_bool",
                   "ExprCompiledBool::Const is constructed without a Some result of is_pure_infallible_to_bool: a branch "
                   "may be removed although its condition has effects or can fail", fn=f, line=st.line)
+    # is_iterable_empty: a constant is an empty *iterable* only if it is iterable at all (len() is also defined for
+    # strings, over which a loop must fail); List/Tuple/Dict literals are judged by is_empty
+    iie = F.one(r"eval::compiler::expr::ExprCompiled::is_iterable_empty$")
+    m = match_arms(F, iie, EXPR)
+    if not m:
+        ctx.bad("C02.R2", "is_iterable_empty:anchor", "anchor-missing: match on ExprCompiled", fn=iie)
+    else:
+        bb, arms, other, allv = m
+        for v in sorted(allv):
+            t = arms.get(v, other)
+            k = arm_constant(iie, t)
+            if v in ("List", "Tuple", "Dict", "Value"):
+                continue
+            ctx.check(k is not None and "0x00" in k, "C02.R2", "is_iterable_empty:" + v,
+                      "%s is never statically known to be an empty iterable" % v,
+                      "is_iterable_empty can answer true for ExprCompiled::%s" % v, fn=iie)
+        ln = calls_by_name(iie, r"value::Value::<'v>::length$")
+        it = calls_by_name(iie, r"TyStarlarkValue::is_iterable$")
+        bi = calls_by_name(iie, r"FrozenValue::is_builtin$")
+        good = bool(ln) and bool(it) and bool(bi)
+        if good:
+            for g in (it[0], bi[0]):
+                te = bool_call_edges(F, iie, g, "true")
+                good = good and bool(te) and all(x.bb not in iie.reach(0, cut_edges=te) for x in ln)
+        ctx.check(good, "C02.R2", "is_iterable_empty:Value-needs-iterable-builtin",
+                  "a constant counts as an empty iterable only on the true edges of is_builtin and is_iterable",
+                  "is_iterable_empty judges a constant by its length alone: values that have a length but are not "
+                  "iterable (strings) make `for x in \"\"` disappear instead of failing", fn=iie)
+    # the Dict arm of the purity classifiers: a dict literal is pure only when it is empty (duplicate keys fail)
+    for fn_ in (f1, f2):
+        m = match_arms(F, fn_, EXPR)
+        if not m or "Dict" not in m[1]:
+            ctx.bad("C02.R2", "Dict-arm:anchor:" + fn_.name, "anchor-missing: Dict arm", fn=fn_)
+            continue
+        bb, arms, other, allv = m
+        t = arms["Dict"]
+        stop = {x for k_, x in arms.items() if x != t} | ({other} if other != t else set())
+        reach = fn_.reach([t], cut_blocks=stop)
+        ie = [c for c in fn_.calls if c.bb in reach and re.search(r"::is_empty$", c.name)]
+        extra = [c for c in fn_.calls if c.bb in reach and c not in ie and not re.search(r"Deref>::deref$|::len$", c.name)]
+        ctx.check(len(ie) == 1 and not extra, "C02.R2", "Dict-arm-only-empty:" + fn_.name,
+                  "a dict literal is classified pure only through is_empty()",
+                  "`%s` classifies non-empty dict literals (calls %s in the Dict arm): building a dict can fail "
+                  "(unhashable or repeated keys), so such a literal is not pure/infallible"
+                  % (fn_.name, sorted({short_fn(c.name) for c in extra})), fn=fn_)
     # for over empty iterable
     fs = F.one(r"eval::compiler::stmt::StmtsCompiled::for_stmt$")
     ie = calls_by_name(fs, r"ExprCompiled::is_iterable_empty$")
